@@ -1269,6 +1269,10 @@ class ReprStructure:
             c for c in self.columns
             if c.name not in columns_names
         ]
+        # set of visible lines may change (f.e. if a break_by column was removed),
+        # so actual widths of columns must be calculated again
+        for c in self.columns:
+            c.width = None
 
     def make_record_ch_chunks_all(self, record, cp) -> [[CHText.Chunk]]:
         """Create intermediate data for the record's text representation.
